@@ -56,13 +56,11 @@ fn raw_op(u: &mut Unstructured, bursts: bool) -> Result<RawOp> {
                 RawOp::InsertBatch { items: u.arbitrary()?, n: u.arbitrary()? }
             }
         }
-        _ => {
-            if u.arbitrary::<bool>()? {
-                RawOp::Handle { sel: u.arbitrary()? }
-            } else {
-                RawOp::DebugFmt
-            }
-        }
+        _ => match u.int_in_range(0u8..=3)? {
+            0 | 1 => RawOp::Handle { sel: u.arbitrary()? },
+            2 => RawOp::DebugFmt,
+            _ => RawOp::ReadQueueProbe { k: u.arbitrary()?, k2: u.arbitrary()?, n: u.arbitrary()?, which: u.arbitrary()? },
+        },
     })
 }
 
